@@ -67,6 +67,17 @@ def cases(run: Run):
         if rng.random() < 0.2:
             D = rng.choice([3600, 7200, 10800, 86400, 90000, 172800 + 5400])
         out.append({"op": "run", "t0": t0.isoformat(), "D": int(D), "dt": int(dt)})
+    # the duration as the command line gives it: decimal hours handed to the real runResonaate (steps chosen so that k steps are a terminating decimal of hours)
+    for _ in range(run.n(60, 600)):
+        dt = rng.choice([36, 36, 18, 72, 90, 180, 360, 9])
+        k = rng.randint(1, 4800 if dt <= 36 else 900)
+        out.append({"op": "cli", "t0": rand_instant(rng).isoformat(), "dt": dt, "k": k, "hours": repr(k * dt / 3600)})
+    # consecutive run calls on one real scenario (truth only): every leg advances by its own floor(D/step), the recorded epochs are start + k*step
+    for _ in range(run.n(1, 6)):
+        dt = rng.choice([60, 60, 30, 7])
+        t0 = rand_instant(rng).replace(year=2021, month=rng.randint(1, 12), day=rng.randint(1, 28))
+        legs = [rng.randint(1, 4) * dt + rng.choice([0, 0, 1, dt - 1]) for _ in range(rng.randint(2, 4))]
+        out.append({"op": "legs", "t0": t0.isoformat(), "dt": dt, "legs": legs})
     return out
 
 
@@ -135,6 +146,7 @@ def impl_case(c):
 
         stub.stepForward = step
         stub.saveDatabaseOutput = lambda: None
+        stub.current_julian_date = clock.julian_date_start
         target = getTargetJulianDate(clock.julian_date_start, timedelta(seconds=D))
         try:
             Scenario.propagateTo(stub, target)
@@ -142,6 +154,62 @@ def impl_case(c):
         except ValueError:
             err = "ValueError"
         return {"steps": len(steps), "err": err, "epochs": [s[0] for s in steps], "jds": [s[1] for s in steps], "target": float(target), "jd0": float(clock.julian_date_start)}
+    if op == "cli":
+        import resonaate
+        import resonaate.scenario as RS
+        from resonaate.scenario.scenario import Scenario
+
+        t0 = datetime.fromisoformat(c["t0"])
+        dt = c["dt"]
+        clock = real_clock(t0, float(dt), float(dt))
+        steps = []
+        stub = SimpleNamespace(
+            clock=clock, logger=logging.getLogger("verif-null"), physics_time_step=SD.ScenarioTime(dt), output_time_step=SD.ScenarioTime(dt),
+            scenario_config=SimpleNamespace(propagation=SimpleNamespace(truth_simulation_only=True)), current_julian_date=clock.julian_date_start,
+        )
+
+        def step():
+            clock.ticToc()
+            stub.current_julian_date = clock.julian_date_epoch
+            steps.append(civil_secs(clock.datetime_epoch))
+
+        stub.stepForward = step
+        stub.saveDatabaseOutput = lambda: None
+        stub.shutdown = lambda *a, **k: None
+        stub.propagateTo = lambda target: Scenario.propagateTo(stub, target)
+        old = RS.buildScenarioFromConfigFile
+        RS.buildScenarioFromConfigFile = lambda *a, **k: stub
+        try:
+            resonaate.runResonaate("unused.json", sim_time_hours=float(c["hours"]))
+        finally:
+            RS.buildScenarioFromConfigFile = old
+        return {"steps": len(steps), "last": steps[-1] if steps else None}
+    if op == "legs":
+        import sqlite3
+
+        import scen
+
+        t0 = datetime.fromisoformat(c["t0"])
+        dt = c["dt"]
+        tgt = scen.target_cfg(10001, [7000.0, 0.0, 0.0], [0.0, 7.0, 2.8])
+        cfg = scen.scenario_cfg(t0, dt, dt * 3, [scen.engine_cfg(1, [tgt], [scen.radar_cfg(60001, 0.0, 0.0)])], truth_only=True)
+        app = scen.build(cfg)
+        per_leg = []
+        try:
+            for D in c["legs"]:
+                before = float(app.clock.time)
+                target = getTargetJulianDate(app.clock.julian_date_epoch, timedelta(seconds=D))
+                try:
+                    app.propagateTo(target)
+                    per_leg.append(int(round((float(app.clock.time) - before) / dt)))
+                except ValueError:
+                    per_leg.append("ValueError")
+            con = sqlite3.connect(app._verif_db_path)
+            epochs = [r[0] for r in con.execute("select timestampISO from epochs order by julian_date").fetchall()]
+            con.close()
+        finally:
+            scen.cleanup()
+        return {"per_leg": per_leg, "epochs": epochs, "clock": float(app.clock.time)}
     raise KeyError(op)
 
 
@@ -155,6 +223,8 @@ def model_lines(c, i):
         return [f"time.jd {a[0]} {a[1]} {a[2]} {a[3]} {a[4]} {a[5]} 0"]
     if op == "offset":
         return [f"time.toJD {fmt(i['jd0'])} {fmt(c['t'])}", f"time.toSec {fmt(i['jd'])} {fmt(i['jd0'])}"]
+    if op in ("cli", "legs"):
+        return []
     if op == "run":
         t = datetime.fromisoformat(c["t0"])
         return [f"time.run nearest {t.year} {t.month} {t.day} {t.hour} {t.minute} {t.second} {c['D']} {c['dt']}", f"time.target nearest {fmt(i['jd0'])} {c['D']}"]
@@ -215,6 +285,22 @@ def oracle(run: Run, c, impl):
         run.worse("offset-roundtrip-s", err)
         if err > 1e-4:
             fails.append(("offset", f"scenario offset {c['t']} s from {c['t0']} comes back as {i['back']!r} (error {err:.3g} s)"))
+    elif op == "cli":
+        if i["steps"] != c["k"]:
+            fails.append(("cli:steps", f"runResonaate for {c['hours']} h ({c['k']} x {c['dt']} s) from {c['t0']} with a {c['dt']} s step took {i['steps']} steps, expected {c['k']}"))
+        elif i["last"] != civil_secs(datetime.fromisoformat(c["t0"])) + c["k"] * c["dt"]:
+            fails.append(("cli:epoch", f"runResonaate for {c['hours']} h from {c['t0']}: the last epoch is not start + {c['k']} x {c['dt']} s"))
+    elif op == "legs":
+        dt = c["dt"]
+        want = [D // dt if D // dt >= 1 else "ValueError" for D in c["legs"]]
+        if i["per_leg"] != want:
+            fails.append(("legs:steps", f"start {c['t0']}, step {dt} s: consecutive run calls of {c['legs']} s advanced {i['per_leg']} steps, expected {want}"))
+        total = sum(w for w in want if w != "ValueError")
+        t0 = datetime.fromisoformat(c["t0"])
+        exp = [(t0 + timedelta(seconds=k * dt)).isoformat(timespec="microseconds") for k in range(total + 1)]
+        got = [e.replace("Z", "").replace(" ", "T") for e in i["epochs"]]
+        if [g[:26] for g in got] != exp:
+            fails.append(("legs:epochs", f"start {c['t0']}, step {dt} s, legs {c['legs']}: the stored epochs are not start + k*step for k = 0..{total} ({len(got)} rows, last {got[-1] if got else None})"))
     elif op == "run":
         D, dt = c["D"], c["dt"]
         want = D // dt
